@@ -8,7 +8,6 @@ package harness
 
 import (
 	"context"
-	"errors"
 	"fmt"
 	"sort"
 	"strconv"
@@ -72,6 +71,10 @@ type BatchSc struct {
 	// (C09: the failing item is released while the other in-flight items stay parked).
 	Prefer []int `json:"prefer,omitempty"`
 	Cancel   *CancelPoint `json:"cancel,omitempty"`
+	// Second, if set: after the first run the same node object is reconfigured to these
+	// settings (N, C, Mode, Budget, WaitMs, Items, Sched, CfgBits are taken from it) and run again;
+	// the second run is judged against the new settings.
+	Second *BatchSc `json:"second,omitempty"`
 	Barrier  int          `json:"barrier,omitempty"` // first Barrier items wait until all of them have started (usability of the limit)
 	// DeadlineMs > 0: the context carries a deadline that many virtual ms after the run starts.
 	DeadlineMs int `json:"deadline_ms,omitempty"`
@@ -184,8 +187,9 @@ type batchExec struct {
 	// qp, if set, is called by the controller at every quiescent point (run not finished).
 	qp func(x *batchExec) string
 	qpFail string
-	node  flyt.Node
-	store *flyt.SharedStore
+	node    flyt.Node
+	builder *flyt.BatchNodeBuilder
+	store   *flyt.SharedStore
 }
 
 func newBatchExec(sc *BatchSc) *batchExec {
@@ -249,7 +253,7 @@ func (x *batchExec) decode(r flyt.Result) int {
 func (x *batchExec) itemIs(r flyt.Result, i int) string {
 	if x.prepItems != nil {
 		want := x.prepItems[i]
-		if r.IsError() != want.IsError() || r.Error() != want.Error() || !samePayload(r.Value(), want.Value()) {
+		if r.IsError() != want.IsError() || !sameErr(r.Error(), want.Error()) || !samePayload(r.Value(), want.Value()) {
 			return fmt.Sprintf("got %s, prep produced %s", describeResult(r), describeResult(want))
 		}
 		return ""
@@ -440,6 +444,9 @@ func (x *batchExec) fbCb(p any, inErr error) (any, error) {
 		default:
 			ret = mkPayload(o.Pay, fmt.Sprintf("fb%d", idx))
 		}
+		if err != nil && o.Pay%2 == 1 {
+			ret = p // a failing fallback may hand a value back together with its error; the error still counts
+		}
 	}
 	x.finish(seq, func(e *BEv) { e.Ret, e.RetErr = ret, err })
 	return ret, err
@@ -549,10 +556,41 @@ func (x *batchExec) build() flyt.Node {
 	if !sc.NoPost {
 		b.WithPostFunc(x.postCb)
 	}
+	x.builder = b
 	if bit(4) {
 		return b.BatchNode // *BatchNode rather than the builder
 	}
 	return b
+}
+
+// reconfigure changes the settings of the SAME node object (builder methods / options applied
+// to the embedded BaseNode later) and resets the recorder, so that the node can be run again:
+// configuration must be read at run time, not cached from an earlier run.
+func (x *batchExec) reconfigure(next *BatchSc) {
+	b := x.builder
+	if next.CfgBits&1 != 0 {
+		flyt.WithMaxRetries(next.budget())(b.BaseNode)
+	} else {
+		b.WithMaxRetries(next.budget())
+	}
+	b.WithWait(time.Duration(next.WaitMs) * time.Millisecond)
+	if next.CfgBits&2 != 0 {
+		flyt.WithBatchConcurrency(next.C)(b.BaseNode)
+	} else {
+		b.WithBatchConcurrency(next.C)
+	}
+	b.WithBatchErrorHandling(next.Mode != 2)
+	n := next.n()
+	x.mu.Lock()
+	x.sc = next
+	x.events, x.parked, x.epoch, x.inflight, x.maxIn, x.started = nil, nil, 0, 0, 0, 0
+	x.attempts = make([]int, n+1)
+	x.postCalls, x.postItems, x.postRes, x.postStore, x.postInflight, x.postStarted = 0, nil, nil, nil, nil, nil
+	x.releases, x.optCounts, x.endCount, x.qpFail = nil, nil, 0, ""
+	x.cancelled, x.cancelEpoch = false, -1
+	x.barrierCh = make(chan struct{})
+	x.t0 = time.Now()
+	x.mu.Unlock()
 }
 
 type batchRun struct {
@@ -728,15 +766,15 @@ func slotMatches(slot flyt.Result, evs []BEv) string {
 	last := evs[len(evs)-1]
 	switch {
 	case last.RetResErr != nil:
-		if !slot.IsError() || slot.Error() != last.RetResErr {
+		if !slot.IsError() || !sameErr(slot.Error(), last.RetResErr) {
 			return fmt.Sprintf("slot is %s, exec returned an error Result carrying %q", describeResult(slot), last.RetResErr)
 		}
 	case last.RetErr != nil:
 		if !slot.IsError() {
 			return fmt.Sprintf("slot is a success (%s) but the item's last callback failed with %q", describeResult(slot), last.RetErr)
 		}
-		if !errors.Is(slot.Error(), last.RetErr) {
-			return fmt.Sprintf("slot error %q is not the item's own last error %q", slot.Error(), last.RetErr)
+		if m := errMatches(slot.Error(), last.RetErr); m != "" {
+			return fmt.Sprintf("slot error %q is not the item's own last error %q (%s)", slot.Error(), last.RetErr, m)
 		}
 	default:
 		if slot.IsError() {
